@@ -54,6 +54,22 @@ DESC = {
  "C21-D": ("C21", "(round 2) the reader caches file contents by name and modification time in whole seconds", "the same path rewritten and loaded again within the same second"),
  "C22-C": ("C22", "(round 2) get_rule() caches per knowledge-base *address* whether a clause is a ground fact", "two different knowledge bases at the same address one after the other, same predicate, clause i ground in the first and with a variable in the second"),
  "C22-D": ("C22", "(round 2) parse_query() caches parsed terms under the text with all whitespace removed", "two queries whose texts differ only by a blank inside an atom (`Mary Ann` / `MaryAnn`)"),
+ "C02-C": ("C02", "(round 2) the cut no longer flags the goals to its left; the And node tests its own flag on one of its two paths only", "a body `left, (alt1 ; alt2, !), right`, first answer through alt1, the call asked again, alt2 cuts, right fails, left has another solution"),
+ "C02-D": ("C02", "(round 2) the Or node reads `was the head goal cut` from the head node instead of its own node", "a disjunction whose non-last alternative is a call to a predicate that cuts; the cut leaks into the caller's disjunction"),
+ "C03-C": ("C03", "(round 2) not(G) over an ordering comparison is replaced by the opposite comparison", "operands that are not comparable (unbound, atom against number, list): G has no answer and neither has its opposite"),
+ "C03-D": ("C03", "(round 2) a `recursion through negation` guard keyed by predicate name makes a nested not of the same predicate fail", "terminating recursion through negation with different arguments (`win($X) :- move($X, $Y), not(win($Y)).`)"),
+ "C10-C": ("C10", "(round 2) variables that already carry a non-zero id are not renamed", "a clause with non-zero ids (e.g. obtained from get_rule()) stored in a knowledge base and renamed again"),
+ "C10-D": ("C10", "(round 2) get_rule() memoises renamed clauses by the address of the stored rule and the counter value", "the slot of a stored clause is re-used (rule removed or replaced, a dropped knowledge base's buffer re-allocated) and fetched again at the same counter value"),
+ "C15-C": ("C15", "(round 2) append() replaces a bound variable *inside* an input list by its value and flattens it", "an element of a list argument that is a variable bound to a list (spliced) or to [] (vanishes)"),
+ "C15-D": ("C15", "(round 2) make_linked_list() rewritten around pop(): a single term that is a list is spliced", "the constructor or slist! called with exactly one term, which is a list - NOT CLAIMED: the statement describes the trailing list of a longer sequence (`[a | [b, c]]`) and leaves the one-term case open, so the check deliberately does not decide it"),
+ "C17-C": ("C17", "(round 2) include/exclude reject an element quickly when it `is not a complex term`", "a complex filter term and a list element that is an unbound variable or `$_`"),
+ "C17-D": ("C17", "(round 2) functor() no longer dereferences its second and third arguments", "a `prefix*` pattern that reaches functor() through a bound variable"),
+ "C18-C": ("C18", "(round 2) group_and_tokens() keeps a group with exactly one child as it is", "a conjunction or disjunction in directly doubled parentheses `((a, b))`: panic in token_tree_to_goal()"),
+ "C18-D": ("C18", "(round 2) parse_linked_list() accepts a written-out list after the bar", "an element, a bar, and a tail text that starts with `[`, ends with `]` and has a top-level arithmetic infix: panic in link_front()"),
+ "C20-C": ("C20", "(round 2) parse_arguments() accepts a sign directly before a decimal point, parse_term() does not", "`-.5` written once as an argument and once alone / as a list element / as an infix operand"),
+ "C20-D": ("C20", "(round 2) the arguments of a prefix-form goal are cut out of the string with character indices used as byte offsets", "a multi-byte character before the closing parenthesis of a goal or built-in call"),
+ "C23-C": ("C23", "(round 2) the timer number is replaced by one global `armed` flag", "an old timer still running (dropped without cancel) that expires while a later solve()/solve_all() is in progress"),
+ "C23-D": ("C23", "(round 2) solve()/solve_all() format answers themselves with an incomplete `has variables` test", "an answer holding a list whose items are complex terms or nested lists that contain rule variables"),
  "C02-A": ("C02", "rule-body re-entry rewritten with Option::take(); the cut test after a failed re-entry is dropped", "a cut in a non-first alternative of a disjunction, the call re-entered after its first answer, the goals after the cut fail, and a later clause matches"),
  "C02-B": ("C02", "every node kind tests its own cut flag; the Or node does so only after delegating to its tail node", "a parenthesised disjunction left of a cut whose later alternative supplied the answer and has more, and the goals after the cut fail"),
  "C03-A": ("C03", "not(G) decides ground goals on fact-only predicates by structural equality instead of unification", "G ground at the call, predicate without rule bodies, and the only fact answering G is non-ground (`$_` or a repeated variable)"),
